@@ -8,7 +8,10 @@ Tie: product Einsums x
       swizzle; bottom levels of shape-split ranks, e.g. (M, K0)); two disjoint flattens; occupancy of the flattened
       rank; any linear extension of "levels outermost-to-innermost" as loop order, the output-concordant one, or the
       compiler's default; up to 4 ranks;
-  (both) rank NAMES drawn from a wide pool by an injective renaming (I, O, ..., names ending in I such as KI, names
+  (pairs, specgen_wide.wide_pairs) two such Einsums over the same rank names in ONE specification, each with its own
+      partitioning (the second reads the first one's result when its ranks allow) - anything the compiler remembers across
+      Einsums or keys by a rank's name shows here;
+  (all) rank NAMES drawn from a wide pool by an injective renaming (I, O, ..., names ending in I such as KI, names
       with digits such as K1 / M20, long names) - the compiler derives level / intermediate names (K1, K1I, MK0) from
       rank names by concatenation, so names are part of the input space.
 Observations on every specification:
@@ -46,6 +49,33 @@ def base_items(rng, n, rename_p):
             decl, exprs, mp, _, naming = specgen_wide.rename_ranks(rng, decl, exprs, mp)
         yield {"yaml": specgen.yaml_of(decl, exprs, mp), "syms": syms or {}, "kind": "base", "mapping": mp, "out": es["out"],
                "features": {"naming": naming}}
+
+
+def einsum_views(spec, mapping):
+    """[(output, partitioning of that Einsum, declaration restricted to its tensors)]"""
+    res = []
+    parts = mapping.get("partitioning") or {}
+    for st in spec.structs:
+        names = [st["out"]] + [f[1] for t in st["terms"] for f in t["factors"] if f[0] == "T"]
+        res.append((st["out"], parts.get(st["out"], {}), {t: spec.decl[t] for t in spec.decl if t in names}))
+    return res
+
+
+def section_texts(it, spec, text):
+    """the emitted text cut into one section per Einsum (prefix compilation), or None"""
+    if len(spec.structs) == 1:
+        return [text]
+    try:
+        secs, prev = [], ""
+        for i in range(len(it["exprs"])):
+            t = runlib.Spec(specgen.yaml_of(it["decl"], it["exprs"][:i + 1], it["mapping"])).compile()
+            if not t.startswith(prev):
+                return None
+            secs.append(t[len(prev):])
+            prev = t
+        return secs if prev == text else None
+    except Exception:
+        return None
 
 
 def targeted_inputs(spec, part, rng):
@@ -88,26 +118,30 @@ def fail_key(c):
 def run(ctx):
     rng = ctx.rng
     q = ctx.quick()
-    n_base, n_wide = (300, 400) if q else (3000, 3000)
-    items = list(base_items(rng, n_base, 0.3)) + list(specgen_wide.wide_items(rng, n_wide))
+    n_base, n_wide, n_pair = (260, 360, 80) if q else (3000, 3000, 600)
+    items = list(base_items(rng, n_base, 0.3)) + list(specgen_wide.wide_items(rng, n_wide)) + list(specgen_wide.wide_pairs(rng, n_pair))
     cases = []
     stats = {"generated": 0, "compiled": 0, "refused_in_known_class": {}, "flatten": 0, "occupancy": 0, "dyn_under_shape": 0,
              "by_kind": {}, "naming": {}, "features": {}, "leader_follower_validated": 0, "occupancy_splits_validated": 0}
     broken_side = []
     for it in items:
         stats["generated"] += 1
-        out = it["out"]
-        p = it["mapping"]["partitioning"][out]
         try:
             spec = runlib.Spec(it["yaml"])
         except Exception as e:
             ctx.violation({"kind": "harness-cannot-parse"}, "generated specification cannot be parsed: %s: %s" % (type(e).__name__, e),
                           {"yaml": it["yaml"]}, no_input=True)
             continue
+        views = einsum_views(spec, it["mapping"])
+        p = {}
+        for _, pv, _ in views:
+            p.update(pv)                   # (statistics and targeted inputs only)
         try:
             text = spec.compile()
         except Exception as e:
-            cls = specgen_wide.rejection_class(spec.decl, out, p)
+            cls = set()
+            for o, pv, dv in views:
+                cls |= specgen_wide.rejection_class(dv, o, pv)
             msg = str(e)
             if "output-only-flatten" in cls and isinstance(e, ValueError) and "output-only flattened rank" in msg:
                 k = "ValueError: Illegal dataflow: cannot iterate over output-only flattened rank"
@@ -132,15 +166,22 @@ def run(ctx):
         if any("_shape" in ds[0] and any("occupancy" in d for d in ds) for ds in p.values()):
             stats["dyn_under_shape"] += 1
         # static side condition: leader / follower protocol
-        in_ids = {spec.var_name(t): spec.order(t) for t in spec.inputs()}
         defects = []
         if patterns_occ.dynamic_table(p):
-            try:
-                defects = patterns_occ.leader_follower_ok(text, p, in_ids, set(spec.decl), out)
-                stats["occupancy_splits_validated"] += len(patterns_occ.occupancy_splits(text, in_ids, set(spec.decl)))
-            except SyntaxError as e:
-                defects = ["emitted text is not Python: %s" % e]
-            stats["leader_follower_validated"] += 1
+            secs = section_texts(it, spec, text)
+            if secs is None:
+                stats["sections_not_separable"] = stats.get("sections_not_separable", 0) + 1
+            else:
+                try:
+                    for (o, pv, dv), sec in zip(views, secs):
+                        if not patterns_occ.dynamic_table(pv):
+                            continue
+                        in_ids = {spec.var_name(t): spec.order(t) for t in dv if t != o}
+                        defects += patterns_occ.leader_follower_ok(sec, pv, in_ids, set(spec.decl), o)
+                        stats["occupancy_splits_validated"] += len(patterns_occ.occupancy_splits(sec, in_ids, set(spec.decl)))
+                except SyntaxError as e:
+                    defects = ["emitted text is not Python: %s" % e]
+                stats["leader_follower_validated"] += 1
         nr = len(set(r for rs in spec.decl.values() for r in rs))
         first = len(cases)
         for j in range(2 if q else 3):
@@ -170,7 +211,7 @@ def run(ctx):
         ctx.violation({"kind": "leader-follower-protocol"},
                       "occupancy partitioning is not emitted as the directives say: %s; %d executions agree with the oracle"
                       % ("; ".join(defects[:3]), b - a), {"yaml": it["yaml"], "text": text, "obligation": "patterns_occ.leader_follower_ok", "defects": defects,
-                       "partitioning": it["mapping"]["partitioning"][it["out"]], "out": it["out"]},
+                       "partitioning": it["mapping"]["partitioning"], "decl": it.get("decl"), "exprs": it.get("exprs"), "mapping": it["mapping"]},
                       no_input=True)
     distinct = len(set(c.text for c in cases))
     ctx.coverage.update({
@@ -178,7 +219,7 @@ def run(ctx):
         "distinct_nontrivial": distinct, "population": stats, "side_condition_broken": len(broken_side),
         "rule": "random product Einsums x {base: occupancy stacks of 1-2 levels with any leader holding the rank, optionally under a uniform_shape; flatten() of 2-3 ranks of one "
                 "tensor, optionally with 1-2 occupancy levels on the flattened rank; wide: 1-3 levels with a leader per level, literal/symbolic sizes, under 0-2 shape levels, "
-                "flatten of ranks of any tensor incl. the output and of bottom shape levels, two flattens, up to 4 ranks} x well-ordered loop orders (random linear extension / "
+                "flatten of ranks of any tensor incl. the output and of bottom shape levels, two flattens, up to 4 ranks; pairs: two such Einsums in one specification} x well-ordered loop orders (random linear extension / "
                 "output-concordant / compiler default) x rank names from a wide pool; every rejection outside the structurally recognised classes is a violation; "
                 "leader/follower protocol validated statically on every program with occupancy",
         "samples": [{"yaml": cases[i].spec.yaml, "extents": cases[i].extents, "result": cases[i].raw} for i in (0, len(cases) // 2)] if cases else [],
@@ -199,9 +240,12 @@ def replay(ctx, rep):
         return 1
     if "inputs" not in r:
         print(text)
-        out = r.get("out", spec.outs[0])
-        p = r.get("partitioning", {})
-        defects = patterns_occ.leader_follower_ok(text, p, {spec.var_name(t): spec.order(t) for t in spec.inputs()}, set(spec.decl), out)
+        it = {"decl": r.get("decl"), "exprs": r.get("exprs"), "mapping": r.get("mapping") or {"partitioning": r.get("partitioning", {})}}
+        views = einsum_views(spec, it["mapping"])
+        secs = section_texts(it, spec, text) or []
+        defects = []
+        for (o, pv, dv), sec in zip(views, secs):
+            defects += patterns_occ.leader_follower_ok(sec, pv, {spec.var_name(t): spec.order(t) for t in dv if t != o}, set(spec.decl), o)
         print("leader/follower protocol:", defects or "OK")
         if defects:
             print("VIOLATION property=C03 replay=<given file>")
